@@ -298,6 +298,14 @@ func runC20(t *testing.T, c StructCase) (v *h.Violation, info h.Info) {
 		if err == nil {
 			return h.V("field-failure-is-reported", "fields %v cannot be decoded, yet no error was reported", failing), info
 		}
+		if len(failing) >= 2 {
+			info.Class("several-fields-fail")
+		}
+		for i := range failing {
+			if name := full(c.Fields[i].Tag); !strings.Contains(err.Error(), fmt.Sprintf("%q", name)) {
+				return h.V("field-failure-is-reported", "%d fields fail (%v); the reported error does not mention the failure of %q: %v", len(failing), failing, name, err), info
+			}
+		}
 		if !c.ViaApply {
 			// NewStore fails as a whole; the struct is not guaranteed to be filled
 			return nil, info
